@@ -1,15 +1,21 @@
 import Pandora.Drv.Util
 import Pandora.Model.C16
+import Pandora.Model.C16Locals
+import Pandora.Model.C16Ammo
 import Pandora.Spec.C16
 import Pandora.Gen.HclYaml
 
 /-!
-C16 model driver.  Input line of `harness/cmd/c16`: `sx=<spelling seed> mal=<0|1> d=<description tree>`.
+C16 model driver.  Input line of `harness/cmd/c16`:
+`sx=<spelling seed> mal=<0|1|2> d=<description tree> [lb=<locals blocks of the HCL spelling> hb=<its body>]`.
 
-The description tree (keys = the names written in HCL) is what gohcl stores into the HCL structs; the driver runs the
-model on the REGENERATED tables — `marshal` (yaml.v2 on `AmmoHCL`) then `decode` (mapstructure into `AmmoConfig`) — and
-prints the predicted record in the canonical dump format of the harness, plus the number of ammo entries
-`config.SpreadNames` yields.  The Spec judges the implementation's observation (HCL vs YAML agreement).
+`lb` / `hb` are the syntax tree of the HCL file the harness printed (locals blocks in source order; body with
+expressions: literals, `local.x`, templates, calls of the registered functions).  The driver EVALUATES it with the
+model of `ParseHCLFile` (`evalFile`, function table regenerated from `buildHclContext`) — the result is what gohcl
+stores into the HCL structs and must be the description `d` the YAML twin was printed from — then runs the model on
+the REGENERATED tables: `marshal` (yaml.v2 on `AmmoHCL`), `decode` (mapstructure into `AmmoConfig`), `ammoOf` (the
+provider's `decodeAmmo`), and prints the predicted record in the canonical dump format of the harness plus the digest
+of the ammo of one pass.  The Spec judges the implementation's observation (HCL vs YAML agreement).
 -/
 namespace Pandora.Drv.C16
 open Pandora.Drv Pandora.Go Pandora.Model.C16
@@ -79,6 +85,89 @@ def parseTree (s : String) : Option V :=
   match parseV (s.length + 2) s.toList with
   | some (v, []) => some v
   | _ => none
+
+/-! ### parsing the HCL syntax tree: the tree grammar plus  L<hex>.  (local)  T[e*]  (template)  F<hex>.[e*]  (call) -/
+
+mutual
+def parseE : Nat → List Char → Option (E × List Char)
+  | 0, _ => none
+  | _ + 1, [] => none
+  | fuel + 1, c :: rest =>
+    if c == 'n' then some (.null, rest)
+    else if c == 't' then some (.bool true, rest)
+    else if c == 'f' then some (.bool false, rest)
+    else if c == 's' then do
+      let (h, rest') ← takeToDot rest []
+      let s ← unhexStr h
+      some (.str s, rest')
+    else if c == 'i' then do
+      let (h, rest') ← takeToDot rest []
+      let i ← (String.ofList h).toInt?
+      some (.int i, rest')
+    else if c == 'L' then do
+      let (h, rest') ← takeToDot rest []
+      let s ← unhexStr h
+      some (.loc s, rest')
+    else if c == 'T' then
+      match rest with
+      | '[' :: r => do
+        let (xs, rest') ← parseEL fuel r
+        some (.tmpl xs, rest')
+      | _ => none
+    else if c == 'F' then do
+      let (h, r0) ← takeToDot rest []
+      let f ← unhexStr h
+      match r0 with
+      | '[' :: r => do
+        let (xs, rest') ← parseEL fuel r
+        some (.call f xs, rest')
+      | _ => none
+    else if c == '[' then do
+      let (xs, rest') ← parseEL fuel rest
+      some (.seq xs, rest')
+    else if c == '{' then do
+      let (kvs, rest') ← parseEM fuel rest
+      some (.map kvs, rest')
+    else none
+def parseEL : Nat → List Char → Option (List E × List Char)
+  | 0, _ => none
+  | _ + 1, [] => none
+  | fuel + 1, c :: rest =>
+    if c == ']' then some ([], rest)
+    else do
+      let (x, r1) ← parseE fuel (c :: rest)
+      let (xs, r2) ← parseEL fuel r1
+      some (x :: xs, r2)
+def parseEM : Nat → List Char → Option (List (String × E) × List Char)
+  | 0, _ => none
+  | _ + 1, [] => none
+  | fuel + 1, c :: rest =>
+    if c == '}' then some ([], rest)
+    else if c == 'k' then do
+      let (h, r0) ← takeToDot rest []
+      let k ← unhexStr h
+      let (x, r1) ← parseE fuel r0
+      let (xs, r2) ← parseEM fuel r1
+      some ((k, x) :: xs, r2)
+    else none
+end
+
+def parseExpr (s : String) : Option E :=
+  match parseE (s.length + 2) s.toList with
+  | some (e, []) => some e
+  | _ => none
+
+def blocksOf : E → Option (List (List (String × E)))
+  | .seq xs => xs.mapM fun
+    | .map kvs => some kvs
+    | _ => none
+  | _ => none
+
+def parseFile (lb hb : String) : Option HclFile := do
+  let l ← parseExpr lb
+  let bs ← blocksOf l
+  let b ← parseExpr hb
+  some ⟨bs, b⟩
 
 /-! ### canonical dump (same format as harness/cmd/c16/dump.go) -/
 
@@ -155,32 +244,43 @@ def dumpElems (T : Tables) (ty : C16CTy) : List V → Option (List String)
     | _, _ => none
 end
 
-/-! ### ammo count -/
+/-! ### ammo digest (same format as `digestOf` / `rle` of harness/cmd/c16/main.go) -/
 
-def fieldOf (v : V) (k : String) : Option V :=
-  match v with
-  | .map kvs => (kvs.find? (·.1 == k)).map (·.2)
-  | _ => none
+def digestRow (a : AmmoRow) : String :=
+  hexOf a.name ++ "@" ++ toString a.minWait ++ "[" ++
+    ",".intercalate (a.steps.map fun p => hexOf p.1 ++ ":" ++ toString p.2) ++ "]"
 
-def weightOf (sc : V) : Nat :=
-  match fieldOf sc "weight" with
-  | some (.int i) => i.toNat
-  | _ => 0
+/-- consecutive equal entries once, with a repeat count -/
+def rleRows : List AmmoRow → Option (AmmoRow × Nat) → List String
+  | [], none => []
+  | [], some (a, n) => [digestRow a ++ "x" ++ toString n]
+  | x :: xs, none => rleRows xs (some (x, 1))
+  | x :: xs, some (a, n) =>
+    if x = a then rleRows xs (some (a, n + 1)) else (digestRow a ++ "x" ++ toString n) :: rleRows xs (some (x, 1))
 
-def scenarioWeights (d : V) : List Nat :=
-  match fieldOf d "scenario" with
-  | some (.seq xs) => xs.map weightOf
-  | _ => []
+def ammoToken (r : Option V) : String :=
+  match ammoOf r with
+  | none => "ERR"
+  | some rows => toString rows.length ++ ":" ++ ";".intercalate (rleRows rows none)
 
 /-! ### handler -/
 
+def fns : List (String × String) := Gen.HclYaml.hclFunctions
+
 def predict (d : V) : String :=
-  match decode tables (marshal tables (complete tables d)) with
-  | none => "H=() Y== A=" ++ toString (spreadTotal (scenarioWeights d))
-  | some r =>
-    match dumpRec tables (.struct tables.cfgRoot) r with
+  let r := decode tables (marshal tables (complete tables d))
+  match r with
+  | none => "H=() Y== A=" ++ ammoToken r
+  | some rec =>
+    match dumpRec tables (.struct tables.cfgRoot) rec with
     | none => "H=ERR Y== A=-"
-    | some s => "H=" ++ s ++ " Y== A=" ++ toString (spreadTotal (scenarioWeights d))
+    | some s => "H=" ++ s ++ " Y== A=" ++ ammoToken r
+
+/-- the description the HCL spelling denotes: evaluated from its syntax tree when the input carries one -/
+def denoted (kv : List (String × String)) (d : V) : Option V :=
+  match lookup kv "hb" with
+  | none => some d
+  | some hb => (parseFile (getS kv "lb" "[]") hb).bind (evalFile fns)
 
 def handle : Handler := fun input impl =>
   let kv := parseKV input
@@ -188,14 +288,23 @@ def handle : Handler := fun input impl =>
   match parseTree (getS kv "d") with
   | none => ("-", "fail:driver:unreadable description")
   | some d =>
-    if hasMergeKey d then
-      -- what yaml.v2 does to the characters of a scalar is outside the model: no prediction; a disagreement of the two
-      -- front-ends on such a description is reported under its own key
-      ("-", if v == "ok" then v else "fail:merge-key:a map key `<<` written in HCL is marshalled unquoted by yaml.v2 and read back as a YAML merge key (" ++ v ++ ")")
-    else if getS kv "mal" == "1" then
-      -- malformed stream: only the agreement of the two front-ends is judged (validation inside plugin constructors and
-      -- the step resolution of the ammo decoders are outside the model)
-      ("-", v)
-    else (predict d, v)
+    match denoted kv d with
+    | none =>
+      -- the spelling uses an expression the model of the HCL functions does not evaluate: no prediction
+      ("-", if v == "ok" then "skip:hcl-expression-outside-the-model" else v)
+    | some d' =>
+      if dumpData d' != dumpData d then
+        -- the HCL text the harness printed denotes (by the model of locals / functions) another description than the
+        -- one its YAML twin was printed from: the two files are not "the same description"
+        ("-", "skip:hcl-spelling-denotes-another-description")
+      else if hasMergeKey d' then
+        -- what yaml.v2 does to the characters of a scalar is outside the model: no prediction; a disagreement of the two
+        -- front-ends on such a description is reported under its own key
+        ("-", if v == "ok" then v else "fail:merge-key:a map key `<<` written in HCL is marshalled unquoted by yaml.v2 and read back as a YAML merge key (" ++ v ++ ")")
+      else if getS kv "mal" == "1" then
+        -- malformed stream: only the agreement of the two front-ends is judged (validation inside plugin constructors is
+        -- outside the model)
+        ("-", v)
+      else (predict d', v)
 
 end Pandora.Drv.C16
